@@ -282,13 +282,13 @@ func (r *remoteReplicator) Replica(idx int64, msg []byte) {
 		logger.String("replicator", r.String()),
 		logger.Int64("replicaIdx", resp.ReplicaIndex),
 		logger.Int64("ackIdx", resp.AckIndex))
-	// FIXME: need check resp err
-	if resp.AckIndex == resp.ReplicaIndex {
-		// if ack index = replica, need ack wal
+	if resp.Err == "" && resp.AckIndex == resp.ReplicaIndex {
+		// if ack index = replica and follower appended it successfully, need ack wal
 		r.SetAckIndex(resp.AckIndex)
 		r.statistics.AckSequence.Incr()
 	} else {
-		// TODO: need reset ack sequence?
+		// follower didn't append this message, need do handshake again(reset replica index based on follower's append index)
+		r.state.Store(&state{state: models.ReplicatorFailureState, errMsg: "follower reject replica msg: " + resp.Err})
 		r.statistics.InvalidAckSequence.Incr()
 	}
 }
